@@ -14,7 +14,7 @@ from props import tlc_replay, tlc_check, VERIF
 DEV = "D_C15_send_ignores_ctx"
 DEV_HANDOFF = "D_C15_handoff_unbuffered"
 CLASSES = '{"ok", "fail", "nil", "slow"}'
-MODES = '{"ok", "parse", "validate", "suberr"}'
+MODES = '{"ok", "parse", "validate", "suberr","subpanic"}'
 KNOWN = os.path.join(VERIF, "known_findings.json")
 
 
